@@ -38,7 +38,7 @@ func recordHistory(c *core.Case, cfg Config, prog []Op, res *core.Result, prop s
 		w.Hook = func(name string, arg int) {
 			switch name {
 			case "commit/before-data-sync", "commit/before-meta-sync":
-				waitWriterIdle(w.Disk)
+				WaitWriterIdle(w.Disk)
 			case "writer/batch":
 				if arg == 0 {
 					atomic.AddInt64(&emptySyncs, 1)
@@ -59,9 +59,9 @@ func recordHistory(c *core.Case, cfg Config, prog []Op, res *core.Result, prop s
 	return w
 }
 
-// waitWriterIdle yields until the simulated disk saw no new I/O call for a few
+// WaitWriterIdle yields until the simulated disk saw no new I/O call for a few
 // consecutive rounds (bounded; used to perturb schedules only).
-func waitWriterIdle(d *simdisk.Disk) {
+func WaitWriterIdle(d *simdisk.Disk) {
 	prev, stable := d.Seq(), 0
 	for i := 0; i < 400 && stable < 4; i++ {
 		runtime.Gosched()
